@@ -39,6 +39,10 @@ def op_line(op):
         return "t 'n', || shared.insert %d, %d" % (op["i"], op["v"])
     if k == "remove":
         return "t 'v', || shared.remove %d" % op["i"]
+    if k == "sort":
+        return "t 'n', || shared.sort()"
+    if k == "fill":
+        return "t 'n', || shared.fill %d" % op["v"]
     raise ValueError(k)
 
 
@@ -57,7 +61,7 @@ def gen_round(rng, rid):
     for t in range(nt):
         ops = []
         for j in range(nops):
-            k = rng.choice(["push", "push", "pop", "clear", "get", "size", "insert", "remove", "remove", "insert"])
+            k = rng.choice(["push", "push", "pop", "clear", "get", "size", "insert", "remove", "remove", "insert", "sort", "fill"])
             ops.append({"k": k, "c": 1, "d": 0, "i": rng.choice([0, 1, 2, 3]), "v": 100 * (t + 1) + j})
         scripts.append(ops)
     return {"id": rid, "scripts": scripts, "mem0": [[10, 20]]}
@@ -88,6 +92,17 @@ SOAK = [
     ("reverse_sort_vs_readers", "list", [5, 3, 1, 4, 2],
      ["for i in 0..N\n  shared.sort()\n  shared.reverse()\n", "bad = 0\nfor i in 0..N\n  if shared.to_tuple().sum() != 15\n    bad += 1\nprint bad\n"],
      lambda fin, th, N: None if all((t.get("stdout") or "0").strip() in ("", "0") for t in th) else "a reader saw a partially sorted list: %s" % [t.get("stdout") for t in th]),
+    # operations that rewrite the whole list against operations that change its length: no push may be lost
+    # (the rewriting thread runs fewer iterations: each one is linear in the list's length)
+] + [
+    ("%s_vs_pushers" % nm, "list", [5, 3, 1, 4, 2],
+     ["for i in 0..(N / 20)\n  %s\n" % op, "for i in 0..N\n  shared.push 1\n", "for i in 0..N\n  shared.push 2\n"],
+     (lambda nm: lambda fin, th, N: None if len(fin) == 5 + 2 * N else "lost update: %d elements after 2 x %d pushes next to %s (expected %d)" % (len(fin), N, nm, 5 + 2 * N))(nm))
+    for nm, op in (("fill", "shared.fill 0"), ("sort", "shared.sort()"), ("reverse", "shared.reverse()"))
+] + [
+    ("map_sort_vs_inserts", "map", [3, 1, 2],
+     ["for i in 0..(N / 20)\n  shared.sort()\n", "for i in 0..N\n  shared.insert 'a{i}', i\n", "for i in 0..N\n  shared.insert 'b{i}', i\n"],
+     lambda fin, th, N: None if len(fin) == 3 + 2 * N else "lost update: %d entries after 2 x %d inserts of distinct keys next to sort (expected %d)" % (len(fin), N, 3 + 2 * N)),
     ("map_insert_distinct", "map", [],
      ["for i in 0..N\n  shared.insert 'a{i}', i\n", "for i in 0..N\n  shared.insert 'b{i}', i\n", "for i in 0..N\n  shared.insert 'c{i}', i\n"],
      lambda fin, th, N: None if len(fin) == 3 * N else "lost update: %d entries after 3 x %d inserts of distinct keys" % (len(fin), N)),
@@ -157,6 +172,10 @@ def run(tier, seed):
                        coverage=False, deadlock=True, tag="shared_find")
     if r.invariant_violated != "Linearizable":
         raise common.ToolError("self-test: the two-step remove-by-value model was not rejected by Linearizable (%s)" % r.invariant_violated)
+    r = common.run_tlc("Shared", "Shared.cfg", workers=8, env={"TWOSTEP": "3", "THREADS": 2, "OPS": 2, "FAMILY": "single", "FULLOPS": "0"}, timeout=3000,
+                       coverage=False, deadlock=True, tag="shared_rewrite")
+    if r.invariant_violated != "Linearizable":
+        raise common.ToolError("self-test: the two-step sort / fill model was not rejected by Linearizable (%s)" % r.invariant_violated)
     r = common.run_tlc("Shared", "Shared.cfg", workers=8, env={"TWOSTEP": "0", "THREADS": 2, "OPS": 1, "FAMILY": "pair", "FULLOPS": "0"}, timeout=3000,
                        coverage=False, deadlock=True, tag="shared_pair")
     pair_deadlock = "Deadlock reached" in r.stdout
@@ -204,7 +223,7 @@ def run(tier, seed):
     # ---- (3b) soak rounds
     N = 3000 if quick else 60000
     M = 150000 if quick else 1500000       # iterations of the cheap index-read round
-    sj = [{"id": i, "kind": kind, "init": init, "scripts": [s.replace("M", str(M)).replace("N", str(N)) for s in scripts], "watchdog_s": 60 if quick else 900}
+    sj = [{"id": i, "kind": kind, "init": init, "scripts": [s.replace("M", str(M)).replace("N", str(N)).replace("Q", str(N // 20)) for s in scripts], "watchdog_s": 60 if quick else 900}
           for i, (name, kind, init, scripts, chk) in enumerate(SOAK)]
     sres = common.kv_parallel("threads", sj, flavor="arc", per_job_timeout=600, shards=3)
     for (name, kind, init, scripts, chk), tr in zip(SOAK, sres):
@@ -216,7 +235,7 @@ def run(tier, seed):
         else:
             why = chk(tr["final"], tr["threads"], N)
         if why:
-            rep.violation("soak_%s" % name, {"property": PROP, "why": why, "soak": name, "kind": kind, "init": init, "scripts": [s.replace("M", str(M)).replace("N", str(N)) for s in scripts],
+            rep.violation("soak_%s" % name, {"property": PROP, "why": why, "soak": name, "kind": kind, "init": init, "scripts": [s.replace("M", str(M)).replace("N", str(N)).replace("Q", str(N // 20)) for s in scripts],
                                              "iterations": N})
     rep.coverage = {
         "states": states, "transitions": states, "traces_validated_against_impl": 2 * len(jobs) + len(recs) + len(SOAK),
